@@ -240,6 +240,13 @@ func (r *runner) snapshot() snapshot {
 			}
 		}
 	}
+	// census: an entry of unixSockets whose counter is 0 is a socket nobody uses any more but whose
+	// descriptor caddy still keeps — its last close must close that descriptor and drop the entry
+	for u := 0; u < nUnix; u++ {
+		if n, present := st.Unix[r.env.poolKey(nTCP+u)]; present && n == 0 {
+			r.fail("unix-socket-table-entry-left-after-last-close", fmt.Sprintf("unixSockets still has an entry for %s with counter 0: the socket was closed by its last user but caddy keeps a descriptor of it (the kernel keeps accepting connections nobody serves)", addrNames[nTCP+u]))
+		}
+	}
 	for u := 0; u < nUnix; u++ {
 		s.ucnt[u] = st.Unix[r.env.poolKey(nTCP+u)]
 		_, err := os.Lstat(r.env.upath[u])
